@@ -37,8 +37,10 @@ def stepLineBoth (w : Bool) (s : St UInt64) (toks : List String) : St UInt64 × 
     | some (op, F) =>
       let r := step codec64 s op F
       let g := Code.execOpW w Hive.Gen.C06Code.prog codec64 s op F
-      let a := showRes r
-      let b := showRes g
+      -- a panicking compute function (`compute boom`): the same state change as a failing one (none); the caller sees the panic
+      let boom := fun (x : String) => if toks.take 2 == ["compute", "boom"] then (x.replace "err:fn" "boom").replace "F!" "F^" else x
+      let a := boom (showRes r)
+      let b := boom (showRes g)
       (r.st, if a == b then a else a ++ " [translated-code: " ++ b ++ "]")
     | none => (s, "bad-op")
 
